@@ -227,4 +227,53 @@ theorem sinkRun_inv (codec : Codec) (ops : List SinkOp) (hne : ∀ op ∈ ops, O
         (sinkStep_inv codec r op h (hne op (List.mem_cons_self)))
   exact this _ ⟨by simp [SinkRun.init, WState.init, queued, encodeAll], winv_init⟩
 
+theorem foldl_append_single {α β : Type} (f : β → α → β) (l : List α) (a : α) (b : β) :
+    (l ++ [a]).foldl f b = f (l.foldl f b) a := by simp
+
+/-- Everything the sink accepted is admitted by the codec. -/
+theorem sinkRun_accepts (codec : Codec) (ops : List SinkOp) :
+    ∀ m ∈ (sinkRun codec ops).accepted, accepts codec m = true := by
+  unfold sinkRun
+  have : ∀ r : SinkRun, (∀ m ∈ r.accepted, accepts codec m = true) →
+      ∀ m ∈ (ops.foldl (sinkStep codec) r).accepted, accepts codec m = true := by
+    induction ops with
+    | nil => intro r h; exact h
+    | cons op ops ih =>
+      intro r h
+      apply ih
+      cases op with
+      | flush evs fl => simpa [sinkStep] using h
+      | send item evs fl =>
+        simp only [sinkStep]
+        cases hp : pollReady r.st evs fl with
+        | mk o rest =>
+          obtain ⟨st', out⟩ := rest
+          cases o with
+          | ready =>
+            simp only []
+            cases hs : startSend codec st' item with
+            | mk res st'' =>
+              cases res with
+              | ok =>
+                simp only []
+                intro m hm
+                rcases List.mem_append.mp hm with hm | hm
+                · exact h m hm
+                · simp at hm; subst hm; exact (startSend_spec codec st' st'' _ hs).2.1
+              | refused => simpa using h
+          | pending => simpa using h
+          | err => simpa using h
+  exact this _ (by simp [SinkRun.init])
+
+/-- After a final `poll_flush` that returned `Ready`, nothing is queued. -/
+theorem sinkRun_flush_ready (codec : Codec) (ops : List SinkOp) (evs : List WrEv) (fl : FlEv)
+    (hne : ∀ op ∈ ops, OpNoErr op) (hne' : OpNoErr (.flush evs fl))
+    (h : (sinkRun codec (ops ++ [.flush evs fl])).last = .ready) :
+    queued (sinkRun codec (ops ++ [.flush evs fl])).st = [] := by
+  unfold sinkRun at h ⊢
+  rw [foldl_append_single] at h ⊢
+  simp only [sinkStep] at h ⊢
+  obtain ⟨_, h2, _⟩ := pollFlush_spec evs (List.foldl (sinkStep codec) SinkRun.init ops).st fl hne'
+  exact (queued_of_takeFrame_none (h2 h)).2.2
+
 end Litep2pVerif.Substream
